@@ -593,8 +593,8 @@ def b_bytes(I, args, kwargs, mutable=False):
                 raise Unsupported("bytes() of a symbolic list whose elements are not provably in range(256)")
         r = v.canonical() if v.seq_args else I.ctx.fresh_const("mapped", ByteSeq)
         I.ctx.assume(z3.Length(r) == v.n)
-        I.ctx.assume(z3.ForAll([v.ivar], z3.Implies(z3.And(v.ivar >= 0, v.ivar < v.n),
-                                                     r[v.ivar] == z3.Int2BV(et, 8))))
+        I.ctx.assume_lazy(z3.ForAll([v.ivar], z3.Implies(z3.And(v.ivar >= 0, v.ivar < v.n),
+                                                          r[v.ivar] == z3.Int2BV(et, 8))))
         return SBytes(r, mutable)
     if isinstance(v, SBytes):
         return SBytes(v.t, mutable)
@@ -779,6 +779,13 @@ def b_next(I, args, kwargs):
         s.touched.append(kt)
         return SInt(kt)
     if isinstance(it, LazyGen):
+        r = _first_match(I, it)
+        if r is not NotImplemented:
+            if r is None:
+                if len(args) > 1:
+                    return args[1]
+                raise PyRaise(mk_exc(StopIteration))
+            return r
         g = it.iter()
         for x in g:
             return x
@@ -786,6 +793,53 @@ def b_next(I, args, kwargs):
             return args[1]
         raise PyRaise(mk_exc(StopIteration))
     raise Unsupported("next() on non-generator")
+
+
+def _first_match(I, gen):
+    """next(<elt> for <targets> in enumerate(seq) if <cond>) / (... for b in seq if cond) over a byte
+    sequence of symbolic length: the first element satisfying the filter.  A fresh index i with
+    0 <= i < len, cond(seq[i]) and forall j < i: not cond(seq[j]); None (StopIteration) when no element
+    satisfies it."""
+    node = gen.node
+    if len(node.generators) != 1:
+        return NotImplemented
+    g = node.generators[0]
+    if g.is_async or len(g.ifs) != 1:
+        return NotImplemented
+    it_node = g.iter
+    enum = isinstance(it_node, _ast.Call) and isinstance(it_node.func, _ast.Name) and it_node.func.id == "enumerate" \
+        and len(it_node.args) == 1 and not it_node.keywords
+    seq = I.eval(it_node.args[0] if enum else it_node, gen.env)
+    if not isinstance(seq, SBytes) or z3.is_int_value(z3.simplify(z3.Length(seq.t))):
+        return NotImplemented
+    c = I.ctx
+    n = z3.Length(seq.t)
+
+    def cond_at(idx_term):
+        e2 = Env({}, gen.env)
+        val = SInt(bv2int(seq.t[idx_term]))
+        I.assign_target(g.target, (SInt(idx_term), val) if enum else val, e2)
+        prev = I.fmode
+        I.fmode = True
+        try:
+            f = I.formula(I.eval(g.ifs[0], e2))
+        finally:
+            I.fmode = prev
+        return _z(f), e2
+
+    j = z3.Int(c.fresh_name("fm_j"))
+    cj, _ = cond_at(j)
+    none = z3.ForAll([j], z3.Implies(z3.And(j >= 0, j < n), z3.Not(cj)))
+    some = z3.Not(none)
+    k = c.choose_feasible([some, none])
+    if k == 1:
+        return None
+    i = c.fresh_int("first_match")
+    I.nonneg_terms.add(i.get_id())
+    ci, e2 = cond_at(i)
+    c.assume(z3.And(i >= 0, i < n, ci))
+    c.assume(z3.ForAll([j], z3.Implies(z3.And(j >= 0, j < i), z3.Not(cj))))
+    return I.eval(node.elt, e2)
 
 
 def b_enumerate(I, args, kwargs):
